@@ -218,8 +218,6 @@ func computeLocks(fn *ssa.Function) *LockInfo {
 			li.Ops = append(li.Ops, in)
 		}
 	})
-	in := map[*ssa.BasicBlock]map[string]string{}
-	out := map[*ssa.BasicBlock]map[string]string{}
 	transfer := func(b *ssa.BasicBlock, s map[string]string, record bool) map[string]string {
 		s = copySet(s)
 		for _, ins := range b.Instrs {
@@ -247,18 +245,44 @@ func computeLocks(fn *ssa.Function) *LockInfo {
 		}
 		return s
 	}
-	// iterate to fixpoint; top = nil (unvisited)
-	in[fn.Blocks[0]] = map[string]string{}
+	// iterate to fixpoint over the split graph (thread.go); top = nil (unvisited)
+	type node struct {
+		blk   *ssa.BasicBlock
+		preds []int
+	}
+	var nodes []node
+	entry := 0
+	if t := threadedCFG(fn); t.changed {
+		for id, n := range t.nodes {
+			nodes = append(nodes, node{n.blk, t.pred[id]})
+		}
+		entry = t.nodeOf[fn.Blocks[0]][0]
+	} else {
+		idx := map[*ssa.BasicBlock]int{}
+		for i, b := range fn.Blocks {
+			idx[b] = i
+		}
+		for _, b := range fn.Blocks {
+			var ps []int
+			for _, p := range b.Preds {
+				ps = append(ps, idx[p])
+			}
+			nodes = append(nodes, node{b, ps})
+		}
+	}
+	in := map[int]map[string]string{}
+	out := map[int]map[string]string{}
+	in[entry] = map[string]string{}
 	changed := true
 	for iter := 0; changed && iter < 100; iter++ {
 		changed = false
-		for _, b := range fn.Blocks {
+		for id, n := range nodes {
 			var cur map[string]string
-			if b == fn.Blocks[0] {
+			if id == entry {
 				cur = map[string]string{}
 			} else {
 				first := true
-				for _, p := range b.Preds {
+				for _, p := range n.preds {
 					po, ok := out[p]
 					if !ok {
 						continue
@@ -274,16 +298,29 @@ func computeLocks(fn *ssa.Function) *LockInfo {
 					continue // unreachable so far
 				}
 			}
-			in[b] = cur
-			no := transfer(b, cur, false)
-			if old, ok := out[b]; !ok || !setEq(old, no) {
-				out[b] = no
+			in[id] = cur
+			no := transfer(n.blk, cur, false)
+			if old, ok := out[id]; !ok || !setEq(old, no) {
+				out[id] = no
 				changed = true
 			}
 		}
 	}
+	// per block: the meet over its reachable copies
+	blockIn := map[*ssa.BasicBlock]map[string]string{}
+	for id, n := range nodes {
+		s, ok := in[id]
+		if !ok {
+			continue
+		}
+		if cur, seen := blockIn[n.blk]; seen {
+			blockIn[n.blk] = meet(cur, s)
+		} else {
+			blockIn[n.blk] = copySet(s)
+		}
+	}
 	for _, b := range fn.Blocks {
-		if s, ok := in[b]; ok {
+		if s, ok := blockIn[b]; ok {
 			transfer(b, s, true)
 		}
 	}
